@@ -120,7 +120,11 @@ MSGS = ['', '', 'simple message', 'key: value', 'a: b: c', "'missing'", 'line on
         # a message that quotes another traceback (multiprocessing's RemoteTraceback, RPC wrappers, test runners)
         'worker failed\n\"\"\"\nTraceback (most recent call last):\n  File "w.py", line 3, in job\n    go()\nKeyError: 1\n\"\"\"',
         'remote said:\nTraceback (most recent call last):\n  File "r.py", line 9, in <module>\nValueError: inner: oops',
-        'see File "x.py", line 3, in f', 'ends with a colon:', 'a\n  File "m.py", line 1, in g\nb']
+        'see File "x.py", line 3, in f', 'ends with a colon:', 'a\n  File "m.py", line 1, in g\nb',
+        # a message that quotes a whole chained report (a wrapper re-raising what a subprocess printed)
+        'child failed:\n\nDuring handling of the above exception, another exception occurred:\n\nTraceback (most recent call last):\n  File "c.py", line 2, in <module>\nOSError: gone',
+        'cause:\n\nThe above exception was the direct cause of the following exception:\n\nTraceback (most recent call last):\n  File "c.py", line 5, in run\n    step()\nRuntimeError: wrapped',
+        'x\n\nDuring handling of the above exception, another exception occurred:\n\ny']
 
 
 def gen_text(r):
